@@ -111,6 +111,22 @@ theorem circular_flag_justified (rt : RefTypes) (cs : List CClass) (edges final 
   rw [he] at he0; cases he0
   exact ⟨c, hcm, hi, hr⟩
 
+/-- **the plain references that remain form an acyclic graph**: once every class has been processed
+(and the cache lists a class's own types under it, as `build_reference_types` does), no chain of
+plain attr / choice references leads from a class back to itself — so no generated module has to
+import, through plain references, a module that needs it first. -/
+theorem plain_references_acyclic (rt : RefTypes) (cs : List CClass) (edges final : List TEdge)
+    (h : detectCircular rt edges cs = some final) (hown : OwnCached rt cs) (x y : Nat)
+    (hxy : PlainEdge final cs x y) : ¬ PlainReach final cs y x :=
+  plain_acyclic rt cs edges final h hown x y hxy
+
+example : OwnCached [(1, [0]), (2, [1])] [⟨1, [0]⟩, ⟨2, [1]⟩] := by
+  intro c hc
+  simp at hc
+  rcases hc with rfl | rfl
+  · exact ⟨[0], rfl, by simp⟩
+  · exact ⟨[1], rfl, by simp⟩
+
 /-- two classes referring to each other: whichever is processed first gets the flag, the other
 keeps a plain reference (so exactly one import direction remains) -/
 example :
